@@ -131,6 +131,10 @@ def compare(snap_a, snap_b, skip=()):
             bad.append(k)
             continue
         va, vb = snap_a[k], snap_b[k]
+        if isinstance(va, tuple) and va and va[0] == 'plain-tuple':
+            if va != vb:
+                bad.append(k)
+            continue
         if isinstance(va, tuple) and isinstance(vb, tuple):
             if va[0] != vb[0] or len(va[2]) != len(vb[2]) or not all(equal_elem(x, y) for x, y in zip(va[2], vb[2])):
                 bad.append(k)
@@ -142,7 +146,7 @@ def compare(snap_a, snap_b, skip=()):
 def run_job(job):
     res = new_result(job['name'])
     dist, p, n, variant = job['dist'], job['p'], job['n'], job['variant']
-    SKIP = {'_timings', 'mean', 'var', 'pooled_covariance', 'pooled_covariance_inv', 'y_window', '_is_checked'}
+    SKIP = {'_timings', 'mean', 'var', 'pooled_covariance', 'pooled_covariance_inv', 'y_window', '_is_checked', '_origin_shape'}      # _origin_shape: shape of the first batch, rows included
 
     def body(ex, pr):
         L.CLOCK.reset()
